@@ -1,11 +1,394 @@
-//! C34 (not built yet)
-use crate::report::{Disagreement, Run};
-use serde_json::Value;
+//! C34 F4 reference cycling has period four and touches only `$` markers.
+//!
+//! Space: every formula of a reference-bearing corpus (construct list + `term` enumeration, upper and lower case)
+//! x every cursor pair 0 <= start, end <= len, in an (en,en) and a (de,de) model, through `Model::cycle_reference`.
+//! For each triple (formula, start, end), with g = one F4 press (cursor = the one returned by the previous press):
+//!  (a) g succeeds and the returned cursor lies inside the new text;
+//!  (b) g(x) and x are equal after deleting `$` and upper-casing;
+//!  (c) everything outside the reference tokens the selection can touch is byte-identical;
+//!  (d) parsed in a fixed context, g(x) and x denote the same cells (same tree after making references absolute);
+//!  (e) g^4(x) = x up to letter case;
+//!  (f) if the selection certainly touches a reference with a full cell endpoint the four texts x, g(x), g^2(x),
+//!      g^3(x) are pairwise different (period exactly four); for a row-only / column-only range g(x) != x.
 
-pub fn run(run: &mut Run) {
-    run.machinery_errors.push("C34: check not built yet".into());
+use crate::fx;
+use crate::report::{Disagreement, Run};
+use ironcalc_base::expressions::lexer::util::get_tokens_with_locale;
+use ironcalc_base::expressions::token::TokenType;
+use ironcalc_base::Model;
+use serde_json::{json, Value};
+
+const SHEETS: [&str; 6] = ["Sheet1", "Sheet2", "My Sheet", "It's", "a!b", "a'!b"];
+
+fn constructs(lang: &str) -> Vec<String> {
+    let sep = if lang == "en" { "," } else { ";" };
+    let dec = if lang == "en" { "." } else { "," };
+    let f = |en: &str, de: &str| if lang == "en" { en.to_string() } else { de.to_string() };
+    let mut v: Vec<String> = [
+        "=A1", "=$A$1", "=A$1", "=$A1", "=$b$2", "=A1:B2", "=$A$1:B2", "=A$1:$B2", "=$A1:B$2", "=A:A", "=$A:B",
+        "=A:$B", "=$C:$D", "=1:1", "=$1:2", "=1:$2", "=$3:$4", "=Sheet2!A1", "=Sheet2!$A$1:B2", "='My Sheet'!A1",
+        "='It''s'!A1:B$2", "='a!b'!A1", "='a''!b'!$A1", "=Sheet2!A:A", "='My Sheet'!1:3", "='My Sheet'!$B:C",
+        "= A1 + B2 ", "=A1+ B2", "=A1 +B2", "=  $A$1", "=A1#", "=@A1", "=XFD1048576", "=AA10+A1%", "=-A1^B2",
+        "=#REF!+A1", "=NoSheet!A1", "=NoSheet!A1:B2", "=nm+A1", "=A1<>B1", "=A1<=$B1", "=A1&B$1&\"$C$1\"",
+        "=(A1+B2)*(C3-$D$4)", "=A1+A1+A1", "=A1:B2:C3", "=A1%%", "=--A1", "=A1^-B2",
+    ]
+    .iter()
+    .map(|s| s.to_string())
+    .collect();
+    v.push(format!("=A1+1{}5", dec));
+    v.push(format!("=A1*{}5+B2", dec));
+    v.push(format!("={}(A1{}B2)", f("SUM", "SUMME"), sep));
+    v.push(format!("={}(A1:B2{} C3)", f("SUM", "SUMME"), sep));
+    v.push(format!("={}(A1>B1{}\"A1\"{}$C$1)", f("IF", "WENN"), sep, sep));
+    v.push(format!("=A1:{}(B2{}1{}1)", f("OFFSET", "BEREICH.VERSCHIEBEN"), sep, sep));
+    v.push(format!("={{1{}2}}+A1", if lang == "en" { "," } else { ";" }));
+    v.push(format!("=LET(x{}A1{}x+B1)", sep, sep));
+    v.push(format!("=LAMBDA(a{}a+A1)(B2)", sep));
+    v.push(format!("={}+A1", f("TRUE", "WAHR")));
+    v.push(format!("={}({}A1{}{}B$2)", f("MAX", "MAX"), "", sep, " "));
+    v
 }
 
-pub fn replay(_case: &Value) -> Vec<Disagreement> {
-    vec![]
+fn term_formulas(thorough: bool) -> Vec<String> {
+    let ts = if thorough {
+        let mut t = fx::terms(&["A1", "$B2"], &["+", "<="], 2, false);
+        t.extend(fx::terms(&["A1", "$B$2", "C$3:$D4", "Sheet2!A1", "1"], &fx::BINOPS, 1, true));
+        t
+    } else {
+        fx::terms(&["A1", "$B$2", "C$3:$D4", "Sheet2!A1"], &fx::BINOPS, 1, false)
+    };
+    ts.into_iter().filter(|t| t.contains(|c: char| c.is_ascii_alphabetic())).map(|t| format!("={}", t)).collect()
+}
+
+pub fn corpus(lang: &str, thorough: bool) -> Vec<String> {
+    let mut v = constructs(lang);
+    v.extend(term_formulas(thorough));
+    let lower: Vec<String> = v.iter().map(|s| s.to_lowercase()).filter(|s| !v.contains(s)).collect();
+    // lower-casing a quoted sheet name or a string changes what it denotes only for sheet lookup, which is
+    // case-insensitive for F4 purposes (the prefix is copied verbatim); keep them
+    v.extend(lower);
+    v.sort();
+    v.dedup();
+    v
+}
+
+fn strip(s: &str) -> String {
+    s.chars().filter(|c| *c != '$').collect::<String>().to_uppercase()
+}
+
+#[derive(Debug)]
+struct Tok {
+    start: usize, // position in the full text (incl. '='), span as the lexer reports it (leading whitespace included)
+    text_start: usize,
+    addr_start: usize, // after the sheet prefix, if any
+    end: usize,
+    is_range: bool,
+    full_cell: bool,
+    prefix: &'static str,
+}
+
+fn ref_tokens(x: &str, lang: &str) -> Vec<Tok> {
+    let chars: Vec<char> = x.chars().collect();
+    if chars.first() != Some(&'=') {
+        return vec![];
+    }
+    let body: String = chars[1..].iter().collect();
+    let mut out = vec![];
+    for m in get_tokens_with_locale(&body, fx::loc(lang), fx::lang(lang)) {
+        let is_range = matches!(m.token, TokenType::Range { .. });
+        if !is_range && !matches!(m.token, TokenType::Reference { .. }) {
+            continue;
+        }
+        let start = m.start.max(0) as usize + 1;
+        let end = m.end.max(0) as usize + 1;
+        let mut text_start = start;
+        while text_start < end && chars[text_start].is_whitespace() {
+            text_start += 1;
+        }
+        let text: String = chars[text_start..end].iter().collect();
+        let prefix = if text.starts_with('\'') {
+            "quoted"
+        } else if text.contains('!') {
+            "plain"
+        } else {
+            "none"
+        };
+        let tchars: Vec<char> = text.chars().collect();
+        let bang = tchars.iter().rposition(|c| *c == '!');
+        let addr_start = text_start + bang.map(|i| i + 1).unwrap_or(0);
+        let addr: String = chars[addr_start..end].iter().collect();
+        let full_cell = addr.split(':').any(|ep| {
+            let e: String = ep.chars().filter(|c| *c != '$').collect();
+            e.chars().any(|c| c.is_ascii_alphabetic()) && e.chars().any(|c| c.is_ascii_digit())
+        });
+        out.push(Tok { start, text_start, addr_start, end, is_range, full_cell, prefix });
+    }
+    out
+}
+
+/// Checks that x1 equals x outside the flexible tokens and equals it up to `$`/case inside them.
+fn match_outside(x: &str, x1: &str, flexible: &[(usize, usize)]) -> Result<(), String> {
+    let a: Vec<char> = x.chars().collect();
+    let b: Vec<char> = x1.chars().collect();
+    let mut i = 0usize;
+    let mut j = 0usize;
+    let mut k = 0usize;
+    while i < a.len() {
+        if k < flexible.len() && i == flexible[k].0 {
+            let (s, e) = flexible[k];
+            let want: Vec<char> = a[s..e].iter().filter(|c| **c != '$').flat_map(|c| c.to_uppercase()).collect();
+            let mut w = 0usize;
+            while w < want.len() {
+                if j >= b.len() {
+                    return Err(format!("text ends inside the reference starting at {}", s));
+                }
+                if b[j] == '$' {
+                    j += 1;
+                    continue;
+                }
+                let up: Vec<char> = b[j].to_uppercase().collect();
+                if up.len() != 1 || up[0] != want[w] {
+                    return Err(format!("character {} `{}` of the new text does not belong to the reference `{}`", j, b[j], a[s..e].iter().collect::<String>()));
+                }
+                j += 1;
+                w += 1;
+            }
+            i = e;
+            k += 1;
+        } else {
+            if j >= b.len() || a[i] != b[j] {
+                return Err(format!(
+                    "position {} of the original (`{}`) outside any touched reference became `{}`",
+                    i,
+                    a[i],
+                    b.get(j).map(|c| c.to_string()).unwrap_or_else(|| "<end>".into())
+                ));
+            }
+            i += 1;
+            j += 1;
+        }
+    }
+    if j != b.len() {
+        return Err(format!("new text has {} extra trailing characters", b.len() - j));
+    }
+    Ok(())
+}
+
+/// None = same cells (or x itself outside the quantifier); Some((clause, detail)) otherwise.
+fn same_cells(x: &str, x1: &str, lang: &str) -> Option<(&'static str, String)> {
+    let mut p = fx::mk_parser(&SHEETS, vec![], fx::loc(lang), fx::lang(lang));
+    let cx = fx::ctx("Sheet1", 5, 5);
+    let mut n0 = p.parse(x.trim_start_matches('='), &cx);
+    if fx::has_parse_error(&n0) {
+        return None; // outside the quantifier (counted by the caller through parseable())
+    }
+    let mut n1 = p.parse(x1.trim_start_matches('='), &cx);
+    if fx::has_parse_error(&n1) {
+        return Some(("result-does-not-parse", format!("`{}` parses, the cycled `{}` gives {}", x, x1, fx::short(&n1))));
+    }
+    fx::absolutize(&mut n0, 5, 5);
+    fx::absolutize(&mut n1, 5, 5);
+    if n0 != n1 {
+        Some(("other-cells", format!("`{}` denotes {}\n`{}` denotes {}", x, fx::short(&n0), x1, fx::short(&n1))))
+    } else {
+        None
+    }
+}
+
+pub fn parseable(x: &str, lang: &str) -> bool {
+    let mut p = fx::mk_parser(&SHEETS, vec![], fx::loc(lang), fx::lang(lang));
+    !fx::has_parse_error(&p.parse(x.trim_start_matches('='), &fx::ctx("Sheet1", 5, 5)))
+}
+
+fn model(lang: &'static str) -> Model<'static> {
+    Model::new_empty("m", lang, "UTC", lang).expect("model")
+}
+
+struct Outcome {
+    ds: Vec<Disagreement>,
+    changed: bool,
+    calls: u64,
+}
+
+fn check_one(m: &Model, lang: &str, x: &str, start: usize, end: usize) -> Outcome {
+    let case = json!({"lang": lang, "formula": x, "start": start, "end": end});
+    let mut ds = vec![];
+    let mut calls = 0u64;
+    let toks = ref_tokens(x, lang);
+    let (s0, e0) = (start.min(end), start.max(end));
+    let sel = if start == end { "collapsed" } else { "range" };
+    let maybe: Vec<&Tok> = toks.iter().filter(|t| !(t.start > e0 || s0 > t.end)).collect();
+    let surely: Vec<&Tok> = toks.iter().filter(|t| !(t.text_start > e0 || s0 > t.end)).collect();
+    let tokdesc = |ts: &[&Tok]| -> String {
+        match ts.first() {
+            None => "token=none".to_string(),
+            Some(t) => format!(
+                "token={} prefix={}",
+                if t.is_range { "Range" } else { "Reference" },
+                t.prefix
+            ),
+        }
+    };
+    let mk = |clause: &str, detail: String| Disagreement {
+        sig: format!("cycle {} {} sel={}", clause, tokdesc(&maybe), sel),
+        case: case.clone(),
+        detail,
+    };
+    let mut texts: Vec<String> = vec![x.to_string()];
+    let (mut cs, mut ce) = (start, end);
+    for step in 0..4 {
+        let cur = texts[step].clone();
+        let r = crate::env::guarded(|| m.cycle_reference(&cur, cs, ce));
+        calls += 1;
+        let (nx, ns, ne) = match r {
+            Err(p) => {
+                ds.push(mk(&format!("panic at={}", p.rsplit(" @ ").next().unwrap_or("")), format!("press {}: `{}` [{}..{}] panicked: {}", step + 1, cur, cs, ce, p)));
+                return Outcome { ds, changed: false, calls };
+            }
+            Ok(Err(e)) => {
+                ds.push(mk("error", format!("press {}: `{}` [{}..{}] returned Err({})", step + 1, cur, cs, ce, e)));
+                return Outcome { ds, changed: false, calls };
+            }
+            Ok(Ok(t)) => t,
+        };
+        let nlen = nx.chars().count() as i32;
+        if ns < 0 || ne < 0 || ns > nlen || ne > nlen {
+            ds.push(mk("cursor-outside", format!("press {}: `{}` [{}..{}] -> `{}` with cursor [{}..{}] outside 0..={}", step + 1, cur, cs, ce, nx, ns, ne, nlen)));
+            return Outcome { ds, changed: false, calls };
+        }
+        if strip(&nx) != strip(&cur) {
+            ds.push(mk("not-only-dollar", format!("press {}: `{}` [{}..{}] -> `{}`", step + 1, cur, cs, ce, nx)));
+            return Outcome { ds, changed: false, calls };
+        }
+        if step == 0 {
+            let flexible: Vec<(usize, usize)> = maybe.iter().map(|t| (t.addr_start, t.end)).collect();
+            if let Err(why) = match_outside(x, &nx, &flexible) {
+                ds.push(mk("outside-touched", format!("`{}` [{}..{}] -> `{}`: {}", x, start, end, nx, why)));
+                return Outcome { ds, changed: false, calls };
+            }
+            if let Some((clause, why)) = same_cells(x, &nx, lang) {
+                // what follows the first touched reference (the range operator `:` after an absolute reference is
+                // a lexer limitation worth telling apart)
+                let xc: Vec<char> = x.chars().collect();
+                let next = maybe
+                    .first()
+                    .and_then(|t| xc.get(t.end))
+                    .map(|c| if c.is_alphanumeric() { 'a' } else { *c })
+                    .map(|c| c.to_string())
+                    .unwrap_or_else(|| "end".into());
+                ds.push(mk(&format!("{} next={}", clause, next), format!("[{}..{}]: {}", start, end, why)));
+                return Outcome { ds, changed: false, calls };
+            }
+        }
+        texts.push(nx);
+        cs = ns as usize;
+        ce = ne as usize;
+    }
+    let up: Vec<String> = texts.iter().map(|t| t.to_uppercase()).collect();
+    if up[4] != up[0] {
+        ds.push(mk("period", format!("`{}` [{}..{}]: four presses give {:?}", x, start, end, &texts[1..])));
+    } else if !surely.is_empty() {
+        if surely.iter().any(|t| t.full_cell) {
+            let mut distinct = up[..4].to_vec();
+            distinct.sort();
+            distinct.dedup();
+            if distinct.len() != 4 {
+                ds.push(mk("period-shorter", format!("`{}` [{}..{}]: the four states are not pairwise different: {:?}", x, start, end, &texts[..4])));
+            }
+        } else if up[1] == up[0] {
+            ds.push(mk("no-change", format!("`{}` [{}..{}]: the selection touches a reference but nothing changed", x, start, end)));
+        }
+    } else if maybe.is_empty() && texts[1] != texts[0] {
+        ds.push(mk("untouched-changed", format!("`{}` [{}..{}] touches no reference but became `{}`", x, start, end, texts[1])));
+    }
+    Outcome { changed: texts[1] != texts[0], ds, calls }
+}
+
+pub fn run(run: &mut Run) {
+    let thorough = run.tier.thorough();
+    let mut units: Vec<(&'static str, String)> = vec![];
+    let mut skipped = 0u64;
+    for lang in ["en", "de"] {
+        for f in corpus(lang, thorough) {
+            if parseable(&f, lang) {
+                units.push((lang, f));
+            } else {
+                skipped += 1;
+            }
+        }
+    }
+    let chunk = 8;
+    let n_units = units.len().div_ceil(chunk);
+    let res = crate::env::par_units(n_units, |u| {
+        let mut ds = vec![];
+        let (mut evals, mut calls, mut changed) = (0u64, 0u64, 0u64);
+        let mut outcomes: std::collections::BTreeSet<u128> = Default::default();
+        let mut models: std::collections::BTreeMap<&str, Model> = Default::default();
+        for (lang, f) in units.iter().skip(u * chunk).take(chunk) {
+            let m = models.entry(lang).or_insert_with(|| model(lang));
+            let len = f.chars().count();
+            for s in 0..=len {
+                for e in 0..=len {
+                    let o = check_one(m, lang, f, s, e);
+                    evals += 1;
+                    calls += o.calls;
+                    if o.changed {
+                        changed += 1;
+                    }
+                    ds.extend(o.ds);
+                }
+            }
+            if let Ok((t, _, _)) = m.cycle_reference(f, len, len) {
+                outcomes.insert(crate::env::digest(&t));
+            }
+        }
+        (ds, evals, calls, changed, outcomes)
+    });
+    let mut outcomes: std::collections::BTreeSet<u128> = Default::default();
+    for r in res {
+        match r {
+            Ok((ds, e, c, ch, o)) => {
+                run.add_all(ds);
+                run.evaluations += e;
+                run.transitions += c;
+                run.nontrivial += ch;
+                outcomes.extend(o);
+            }
+            Err(e) => run.machinery_errors.push(format!("unit panicked: {}", e)),
+        }
+    }
+    run.states = units.len() as u64;
+    run.traces = run.evaluations;
+    run.distinct_outcomes = outcomes.len() as u64;
+    run.rule = "(formula, start, end) triples whose first F4 press changed the text".into();
+    for i in [0, units.len() / 2, units.len() - 1] {
+        run.sample(json!({"lang": units[i].0, "formula": units[i].1, "cursors": "all 0<=start,end<=len"}));
+    }
+    run.bound = json!({
+        "languages": ["en/en", "de/de"],
+        "formulas": units.len(),
+        "formulas_not_accepted_by_parser_skipped": skipped,
+        "construct_list": constructs("en").len(),
+        "terms": if thorough { "depth<=2 over {A1,$B2} x {+,<=}; depth<=1 over {A1,$B$2,C$3:$D4,Sheet2!A1,1} x 12 operators with unary - and %" } else { "depth<=1 over {A1,$B$2,C$3:$D4,Sheet2!A1} x 12 operators" },
+        "case_variants": "each formula also lower-cased",
+        "cursor_pairs": "all (start,end) in [0,len]^2, start>end included",
+        "presses": 4,
+    });
+    run.exhaustive = true;
+    run.assume("reference token spans are taken from the engine's own tokenizer (get_tokens_with_locale); a selection lying only in the white space before a reference is treated as 'may touch' (either behaviour accepted)");
+    run.assume("successive presses use the cursor returned by the previous press, as a user pressing F4 repeatedly does");
+    run.assume("only formulas the parser accepts are in the quantifier; `'Sheet' !A1` (space before the bang) is not in the corpus");
+}
+
+pub fn replay(case: &Value) -> Vec<Disagreement> {
+    let lang: &'static str = if case["lang"].as_str() == Some("de") { "de" } else { "en" };
+    let m = model(lang);
+    check_one(
+        &m,
+        lang,
+        case["formula"].as_str().unwrap_or(""),
+        case["start"].as_u64().unwrap_or(0) as usize,
+        case["end"].as_u64().unwrap_or(0) as usize,
+    )
+    .ds
 }
